@@ -25,7 +25,7 @@ def plan(tier):
                 for base in (-1.0, 0.0):
                     sh.append(('native', gi, n, ('dev', sprops.V4, base, d, cap), dict(unary_penalty=0.5, nbest=k), J))
                 sh.append(('full', gi, n, ('dev', sprops.V4, -1.0, 1 if N > 12 else 2, 800 if tier == 'quick' else 8000), dict(unary_penalty=0.5, nbest=k), J))
-        for base in ('g1', 'g2'):
+        for base in ('g1', 'g2', 'g3'):
             for n in (2, 3):
                 N = S.n_entries(n, T)
                 d = (2 if N <= 16 else 1) + (1 if tier == 'thorough' and N <= 30 else 0)
@@ -39,6 +39,7 @@ def plan(tier):
                 sh += sprops.products(gi, 2, [0.0, -1.0, -4.0], dict(unary_penalty=0.0, nbest=k), J)
                 if not real:
                     sh += sprops.products(gi, 3, [0.0, -1.0], dict(unary_penalty=0.0, nbest=k), J)
+    sh += sprops.long_shards(tier, [dict(unary_penalty=0.5, nbest=2), dict(unary_penalty=0.5, nbest=5)], J, allk=True)
     return sh
 
 
